@@ -109,7 +109,27 @@ LEVEL_NOTE = ("trusts pandas as the reference and the harness comparison (vf.gen
 TECHNIQUE = "runtime monitoring: pandas differential on random typed operation pipelines, ordered comparison incl. index"
 CASE_TIMEOUT = 60
 
-PENDING = {}
+# labels listed as known findings in /verif/known_findings.d/C36.json (everything else was fixed, see /verif/fixes_ready)
+PENDING = {
+    'partition-wise-evaluation:value-dependent-dtype':
+        "result dtype (or a later astype(str)/astype('category') of it) differs from pandas: pandas upcasts int->float (NaN from where/mask, int//0, int%0, cli",
+    'aligned-operands:mismatched-divisions':
+        "operations on the result of an aligned filter/assign/binary operation (differently partitioned second operand) raise AssertionError 'Mismatched divisi",
+    'other:assign:wrong-result':
+        'assign(col=<differently partitioned series>) adds rows: the series is aligned with an OUTER join instead of being reindexed to the frame (extra all-Na',
+    'other:assign:exception':
+        'same mechanism as other:assign:wrong-result; with duplicate index labels or downstream steps the outer alignment raises (cannot reindex on an axis wit',
+    'apply:axis1:empty-partition:exception':
+        "DataFrame.apply(f, axis=1, meta=...) on an EMPTY partition returns pandas' result for zero rows (empty float64 Series / empty DataFrame) instead of an",
+    'apply:axis1:empty-partition:wrong-result':
+        'same mechanism as apply:axis1:empty-partition:exception; the malformed empty piece survives and the result has wrong dtype/length',
+    'expr-node:AttributeError@StringAccessor.__init__':
+        "(ddf.b + 'p-').str.replace('y','Q').str.upper() raises 'Can only use .str accessor with string values, not floating' while the graph is built",
+    'filter:or-of-identical-operands-then-filter:IndexingError@compute':
+        "s2 = s[p | p]; s2[s2] raises IndexingError 'Unalignable boolean Series provided as indexer' (p | p with identical operands, then a second filter by th",
+    'user-meta-tuple:comparison-with-column:identically-labeled':
+        "ddf.d.apply(f, meta=('d','float64')) != ddf.c raises 'Can only compare identically-labeled Series objects' while building the meta when the index is n",
+}
 
 
 def cases(tier, seed):
